@@ -131,9 +131,9 @@ def check_C01(tier, rng, rep):
     """boolean operators are set-theoretic, point by point"""
     quick = tier == "quick"
     # (a) the model: region algebra theorems + the heap model's ResultIsSetAlgebra
-    for un in ([rng.choice(U2), "U3hole"] if quick else U2 + U3):
+    for un in (["U2cross", "U3hole"] if quick else U2 + U3):
         rep.add_tlc("PlaneThm/" + un, models.plane_thm(un, ["ThmSubset", "ThmSingletonLaws", "ThmXorTouch", "ThmParity"]))
-    un = rng.choice(["U2corner", "U2bite", "U2cross"]) if quick else "U2cross"
+    un = "U2cross" if quick else "U2cross"
     rep.add_tlc("ShapeSys/%s/r2" % un, models.shapesys_check(un, regs=2, maxobj=4, props=["ResultIsSetAlgebra"], invs=["TypeOK"],
                                                                 acts=("make", "bin", "inv")))
     # (b) one-step behaviours: every operator on every ordered pair of pinch-free regions
@@ -200,7 +200,7 @@ def check_C02(tier, rng, rep):
     """point membership is geometric truth with the boundary rule"""
     from . import queries
     quick = tier == "quick"
-    for un in ([rng.choice(U2)] if quick else U2 + U3):
+    for un in (["U2cross", "U3hole"] if quick else U2 + U3):
         rep.add_tlc("PlaneThm/" + un, models.plane_thm(un, ["ThmKindShape", "ThmLoops", "ThmLoopCorners"]))
     proper = lambda st, r: r not in (0,)
     if quick:
@@ -222,9 +222,9 @@ def check_C03(tier, rng, rep):
     """`B in A` is subset, for shapes and curves"""
     from . import queries
     quick = tier == "quick"
-    for un in ([rng.choice(U2), "U3chain"] if quick else U2 + U3):
+    for un in (["U2cross", "U3hole"] if quick else U2 + U3):
         rep.add_tlc("PlaneThm/" + un, models.plane_thm(un, ["ThmSubset", "ThmBdryIn"]))
-    un = rng.choice(["U2nest", "U2notch", "U2bite"]) if quick else "U2notch"
+    un = "U2bite" if quick else "U2notch"
     rep.add_tlc("ShapeSys/%s/r2" % un, models.shapesys_check(un, regs=2, maxobj=4, props=["SubsetLaw"], invs=["TypeOK"], acts=("mkreg", "query")))
     if quick:
         jobs = query_rows(U2, lambda k: [(POLY + CURVED[:2])[k % 5]], rng, per_universe=60)
@@ -241,7 +241,7 @@ def check_C07(tier, rng, rep):
     """== is region equality and an equivalence"""
     from . import queries
     quick = tier == "quick"
-    un = rng.choice(["U2nest", "U2notch", "U2corner"]) if quick else "U2corner"
+    un = "U2corner" if quick else "U2corner"
     rep.add_tlc("ShapeSys/%s/r2" % un, models.shapesys_check(un, regs=2, maxobj=4, props=[], invs=["TypeOK", "Canonical"], acts=("mkreg", "query", "copy")))
     if quick:
         jobs = query_rows(U2, lambda k: [(POLY + CURVED[:2])[k % 5]], rng, per_universe=50)
@@ -263,7 +263,7 @@ def check_C04(tier, rng, rep):
     """area and moments are the true integrals"""
     from . import queries
     quick = tier == "quick"
-    for un in ([rng.choice(U2), rng.choice(U3)] if quick else U2 + U3):
+    for un in (["U2cross", "U3hole"] if quick else U2 + U3):
         rep.add_tlc("PlaneThm/" + un, models.plane_thm(un, ["ThmGreen", "ThmMomCompl"]))
     proper = lambda st, r: r not in (0, st.u.full)
     if quick:
@@ -282,7 +282,7 @@ def check_C05(tier, rng, rep):
     """inclusion-exclusion on the library's own numbers"""
     from . import queries
     quick = tier == "quick"
-    for un in ([rng.choice(U2), rng.choice(U3)] if quick else U2 + U3):
+    for un in (["U2cross", "U3hole"] if quick else U2 + U3):
         rep.add_tlc("PlaneThm/" + un, models.plane_thm(un, ["ThmInclExcl", "ThmMomCompl"]))
     if quick:
         jobs = query_rows(U2, lambda k: [(POLY + CURVED[:2])[k % 5]], rng, per_universe=40, classes=("T",))
@@ -312,9 +312,9 @@ def singleton_rows(un):
 def check_C06(tier, rng, rep):
     """results are canonical, well-formed; singletons"""
     quick = tier == "quick"
-    for un in ([rng.choice(U2), rng.choice(U3)] if quick else U2 + U3):
+    for un in (["U2cross", "U3hole"] if quick else U2 + U3):
         rep.add_tlc("PlaneThm/" + un, models.plane_thm(un, ["ThmKindShape", "ThmComplRow", "ThmSingletonLaws", "ThmLoops", "ThmLoopCorners"]))
-    un = rng.choice(["U2corner", "U2bite", "U2nest"]) if quick else "U2cross"
+    un = "U2nest" if quick else "U2cross"
     rep.add_tlc("ShapeSys/%s/r2" % un, models.shapesys_check(un, regs=2, maxobj=4, props=["FreshResults"], invs=["TypeOK", "Canonical"], acts=("make", "bin", "inv")))
     o = {"check_c10": False}
     jobs = []
@@ -343,7 +343,7 @@ GEN_ALL = ("m1", "M1", "m2", "M2", "s1", "S1", "s2", "S2", "r1", "R1", "r2", "R2
 def check_C08(tier, rng, rep):
     """operands unchanged, results share nothing"""
     quick = tier == "quick"
-    un = rng.choice(["U2corner", "U2bite", "U2cross"]) if quick else "U2cross"
+    un = "U2cross" if quick else "U2cross"
     rep.add_tlc("ShapeSys/%s/r2" % un, models.shapesys_check(un, regs=2, maxobj=4, props=["OperandsUnchanged", "FreshResults"], invs=["TypeOK", "Canonical"]))
     acts = ("make", "mkreg", "bin", "inv", "copy", "invert", "transform", "alias", "query", "drop")
     sims, jobs = sim_jobs([rng.choice(U2[2:]), rng.choice(U3)] if quick else U2 + U3, ["poly-frac", "poly-float", "quad-float"] if quick else POLY + CURVED,
@@ -365,7 +365,7 @@ def check_C08(tier, rng, rep):
 def check_C09(tier, rng, rep):
     """move / rotate / scale are the affine maps"""
     quick = tier == "quick"
-    un = rng.choice(["U2nest", "U2corner"]) if quick else "U2corner"
+    un = "U2corner" if quick else "U2corner"
     rep.add_tlc("ShapeSys/%s/r2/frames" % un, models.shapesys_check(un, regs=2, maxobj=4, gens=("m1", "M1", "s1", "r1"), maxframe=2,
                                                                      props=["OperandsUnchanged", "FreshResults"], invs=["TypeOK", "Canonical"],
                                                                      acts=("make", "transform", "copy", "inv", "alias", "badtransform"), ops=("or",)))
@@ -415,7 +415,7 @@ def rerun_observations(jobs, hashseed, warm):
 def check_C10(tier, rng, rep):
     """answers depend only on the current geometry, not on earlier calls"""
     quick = tier == "quick"
-    un = rng.choice(["U2corner", "U2bite", "U2cross"]) if quick else "U2cross"
+    un = "U2cross" if quick else "U2cross"
     rep.add_tlc("ShapeSys/%s/r2" % un, models.shapesys_check(un, regs=2, maxobj=4, gens=("s1", "S1"), maxframe=1,
                                                               props=["OperandsUnchanged"], invs=["TypeOK", "Canonical"],
                                                               acts=("make", "bin", "query", "transform", "copy")))
@@ -452,11 +452,121 @@ def check_C10(tier, rng, rep):
     return rep.finish(tier, rule="TLC -simulate behaviours (depth 12, all action families) replayed; after every step each involved object answers the query battery (area, kind, signed curve lengths, box, first moment, point membership) three times: live, on a deep copy, live again; a sample of behaviours is re-run in fresh interpreters with other hash seeds and warm/cold memo tables and the observation logs compared", exhaustive=False)
 
 
+
+CALLS_CFG = """CONSTANTS
+  NSub = %d
+  NPairs = %d
+  InPlaceInvert = %s
+  Kinds <- MCKinds
+"""
+
+
+def calls_check(inplace, nsub=3, npairs=3, tag=None):
+    tlc.prepare()
+    root = tag or ("MCC_%s" % inplace)
+    open(os.path.join(tlc.BSPEC, root + ".tla"), "w").write(
+        '---- MODULE %s ----\nEXTENDS Calls\nMCKinds == {"contains","binop","sub","xor","query"}\n====\n' % root)
+    cfg = CALLS_CFG % (nsub, npairs, "TRUE" if inplace else "FALSE") + "SPECIFICATION Spec\nINVARIANT Intact\n" + ("" if inplace else "INVARIANT Complete\nINVARIANT OnlySplits\n") + "CHECK_DEADLOCK FALSE\n"
+    return tlc.run(root, None, cfg_text=cfg, timeout=300, tag=root)
+
+
+def calls_validate(traces, tag="MCTC", npairs=6):
+    """TLC: is every recorded mutation trace a behaviour of Calls (repaired design)?"""
+    import re
+    tlc.prepare()
+    d = os.path.join(tlc.BUILD, "traces")
+    os.makedirs(d, exist_ok=True)
+    path = os.path.join(d, tag + ".json")
+    json.dump(traces, open(path, "w"))
+    open(os.path.join(tlc.BSPEC, tag + ".tla"), "w").write(
+        '---- MODULE %s ----\nEXTENDS TraceCalls\nMCKinds == {"contains","binop","sub","xor","query"}\n====\n' % tag)
+    cfg = CALLS_CFG % (3, npairs, "FALSE") + "SPECIFICATION TCSpec\nCONSTRAINT Guide\nPOSTCONDITION AllAccepted\nCHECK_DEADLOCK FALSE\n"
+    res = tlc.run(tag, None, cfg_text=cfg, workers=1, timeout=600, tag=tag, env={"TRACE_FILE": path})
+    res.accepted_all = not ("Postcondition AllAccepted" in res.out and "is false" in res.out)
+    res.ok = "Finished in" in res.out and "Error" not in res.out.replace("Error: Postcondition AllAccepted", "")
+    return res
+
+
+def check_C11(tier, rng, rep):
+    """a call that raises or is interrupted leaves operands intact"""
+    from . import inject
+    quick = tier == "quick"
+    # (a) the model: the repaired design satisfies Intact at every crash point; the pinned
+    # design (in-place inversion) must be REFUTED by TLC -- this keeps the invariant honest
+    r_fixed = calls_check(False)
+    rep.add_tlc("Calls/repaired-design", r_fixed)
+    r_pinned = calls_check(True)
+    rep.cov["tlc_runs"].append({"model": "Calls/pinned-design (expected counterexample)", "violated": r_pinned.violated, "distinct_states": r_pinned.distinct})
+    if r_pinned.violated != "Intact":
+        rep.machinery.append("Calls with in-place inversion should violate Intact but TLC says: %r" % r_pinned.violated)
+    # (b) fault injection at internal call boundaries + mutation-event traces
+    rep.level = "model_checking"
+    jobs = []
+    unames = ["U3hole", "U2cross"] if quick else ["U3hole", "U2cross", "U3chain", "U2comb"]
+    reals = ["poly-frac", "poly-float"] if quick else ["poly-frac", "poly-float", "quad-float"]
+    counts = []
+    for un in unames:
+        for cn in inject.case_names(un):
+            counts.append((un, reals[len(counts) % len(reals)], cn, None, {}))
+    if quick:
+        counts = runner.sample(counts, 40, rng)
+    base = runner.pool_map(inject.inject_case, counts, chunksize=1)
+    traces = []
+    for job, r in zip(counts, base):
+        if r.get("machinery"):
+            rep.machinery.append(r["machinery"])
+            continue
+        n = r["events"]
+        traces += r.get("traces", [])
+        npts = 24 if quick else 160
+        ks = sorted(set(list(range(1, min(n, 12))) + [rng.randrange(1, n + 1) for _ in range(npts)] + [n, n - 1, max(1, n // 2)]))
+        for chunk in range(0, len(ks), 12):
+            jobs.append((job[0], job[1], job[2], ks[chunk:chunk + 12], {"kbd": True, "warm": (chunk // 12) % 2 == 1}))
+    res = runner.pool_map(inject.inject_case, jobs, chunksize=1)
+    rep.level = "model_checking"
+    for r in res:
+        traces += r.get("traces", []) if not r.get("machinery") else []
+    rep.add_results("inject", res)
+    rep.cov["injected_runs"] = sum(r.get("stats", {}).get("runs", 0) for r in res)
+    rep.cov["calls_instrumented"] = len(counts)
+    # (c) TLC validates the recorded mutation traces against Calls (repaired design)
+    uniq = []
+    seen = set()
+    for t in traces:
+        k = json.dumps(t, sort_keys=True)
+        if k not in seen:
+            seen.add(k)
+            uniq.append(t)
+    if uniq:
+        npairs = max([sum(1 for e in t["log"] if e[0] == "split" and e[1] == "A") for t in uniq] + [1])
+        rv = calls_validate(uniq, npairs=min(npairs, 8))
+        rep.add_tlc("TraceCalls (%d distinct mutation traces)" % len(uniq), rv)
+        rep.cov["mutation_traces"] = {"recorded": len(traces), "distinct": len(uniq), "accepted_all": rv.accepted_all}
+        if rv.ok and not rv.accepted_all:
+            rep.finding_or_violation("tracecalls/rejected", {"what": "a recorded mutation-event trace is not a behaviour of Calls (operand mutated in a way the repaired design does not allow)",
+                                                             "log": rv.error_text(), "traces": uniq[:50]})
+        # negative control: an in-place inversion of an operand must be rejected
+        bad = [dict(uniq[0], log=list(uniq[0]["log"]) + [["invert", 0]])]
+        rn = calls_validate(bad, tag="MCTCN", npairs=min(npairs, 8))
+        rep.cov["negative_controls"] = {"tried": 1, "rejected": 0 if rn.accepted_all else 1}
+        if rn.accepted_all:
+            rep.machinery.append("negative control (operand inverted in place) accepted by TraceCalls")
+    # (d) invalid arguments of the in-place transformations (BadTransform actions)
+    sims, jobs2 = sim_jobs(["U2nest", "U3hole"] if quick else U2 + U3, ["poly-frac", "poly-float"] if quick else POLY + CURVED,
+                           num=14 if quick else 80, depth=7, seed=runner.seed() + 12, opts={"check_c10": False},
+                           acts=("make", "mkreg", "badtransform", "transform", "inv"), gens=("m1", "s1"), maxframe=1, regs=2, maxobj=5, constraint="SimDomain")
+    for un, r in sims:
+        rep.add_tlc("ShapeSys-sim/" + un, r)
+    rep.add_results("sim", runner.pool_map(replay.run_case, jobs2))
+    rep.assumptions.append("crash points = PY_START events of frames whose code lives under shapepy/ (sys.monitoring), as the property's quantifier states (each internal call boundary); an interrupt between two bytecodes of one frame is not enumerated")
+    return rep.finish(tier, rule="for each instrumented client-level call (operators on crossing operands, containment and == between all kinds, float/moment/deepcopy/~/point queries) the uninjected run counts N internal call boundaries; an exception (and KeyboardInterrupt at every 7th point) is raised at sampled k <= N (thorough: 160 per call), with cold and warm caches; after each the operands are compared with the specification record, the query battery, cached orientation, and the call is repeated; recorded mutation events are validated by TLC against Calls", exhaustive=False)
+
+
 def check_C19(tier, rng, rep):
     """direct composite constructors equal operator results"""
     from . import queries
     quick = tier == "quick"
-    un = rng.choice(["U2nest", "U2disj", "U2comb"]) if quick else "U2comb"
+    un = "U2comb" if quick else "U2comb"
     rep.add_tlc("ShapeSys/%s/r2" % un, models.shapesys_check(un, regs=2, maxobj=4, props=["ResultIsSetAlgebra", "FreshResults"], invs=["TypeOK", "Canonical"], acts=("mkreg", "bin", "query")))
     multi = lambda st, r: st.nloops(r) >= 2
     if quick:
@@ -470,7 +580,7 @@ def check_C19(tier, rng, rep):
 
 
 CHECKS = {"C01": check_C01, "C02": check_C02, "C03": check_C03, "C04": check_C04, "C05": check_C05, "C06": check_C06,
-          "C07": check_C07, "C08": check_C08, "C09": check_C09, "C10": check_C10, "C19": check_C19}
+          "C07": check_C07, "C08": check_C08, "C09": check_C09, "C10": check_C10, "C11": check_C11, "C19": check_C19}
 
 
 
